@@ -536,6 +536,10 @@ func (vc *VC) loadElemPath(st *State, key string, t types.Type, s, i Term) Val {
 		return vc.rd(key, vc.strHeap(), s, i)
 	}
 	h := vc.heap(st, key, HeapSort(vc.sortOf(t)))
+	if v, ok := vc.resolveRead(h, s, i); ok {
+		return v
+	}
+	h = vc.skipFreshStores(h, s)
 	return vc.rd(key, h, s, i)
 }
 
@@ -550,6 +554,18 @@ func (vc *VC) storeElemPath(st *State, key string, t types.Type, base, idx Term,
 	h := vc.heap(st, key, HeapSort(vc.sortOf(t)))
 	vc.frameCheckCells(st, key, base, idx, Add(idx, IntLit(1)), pos)
 	vc.setHeap(st, key, Store(h, base, Store(Select(h, base), idx, vc.term(v))))
+	vc.noteHeapDef(st, key, heapStore{prev: h, base: base, idx: idx, val: vc.term(v)})
+}
+
+func (vc *VC) noteHeapDef(st *State, key string, hs heapStore) {
+	nh, ok := st.heaps[key]
+	if !ok || strings.HasPrefix(nh.S, "(") {
+		return
+	}
+	if vc.heapDef == nil {
+		vc.heapDef = map[string]heapStore{}
+	}
+	vc.heapDef[nh.S] = hs
 }
 
 func (vc *VC) evalIndex(fr *frame, st *State, x *ast.IndexExpr) Val {
@@ -1307,6 +1323,7 @@ func (vc *VC) makeSlice(st *State, elem types.Type, n, c Term, pos token.Pos) Te
 	for _, lf := range vc.leaves(vc.elemKey(elem), elem) {
 		h := vc.heap(st, lf.key, HeapSort(lf.sort))
 		vc.setHeap(st, lf.key, Store(h, base, vc.zeroOfSort(ArrSort(lf.sort))))
+		vc.noteHeapDef(st, lf.key, heapStore{prev: h, base: base, fresh: true, zero: vc.zeroOfSort(lf.sort)})
 	}
 	vc.checkFrm = saved
 	return vc.define("s", MkSlice(base, IntLit(0), n, c))
